@@ -19,7 +19,7 @@ ORACLES = ("csscolor", "cssmodel")
 RULE = ("C08's generated sheets plus carry-through material in adjusted and unadjusted rules alike (@import/@charset/@namespace/@font-face/@keyframes/"
         "@page/@layer/unknown at-rules with and without blocks, strings and url() containing braces/semicolons/comment markers, escapes, odd !important "
         "spacing, vendor hacks, empty rules, doubled semicolons, non-ASCII, CRLF) x all settings x single-file and directory invocation (explicit targets and directory entries that are "
-        "symbolic links to sheets kept elsewhere; a sheet declaring @charset ISO-8859-1 with Latin-1 bytes, which may be skipped or carried through intact). Observed: "
+        "symbolic links to sheets kept elsewhere; a sheet declaring @charset ISO-8859-1 with Latin-1 bytes, which may be skipped or carried through intact; runs over a stale, longer output of an earlier run, every other one not valid UTF-8). Observed: "
         "SHA-256 of every input and the directory listing before/after; audit-hook log of every write-open / filesystem mutation (in-process runs); "
         "strace -f file-syscall log (subprocess sample); canonical structure (cssmodel.canonical) of <name>_cm.css vs the input: identical except the "
         "value of the deciding color declaration of a carded rule or of the custom-property definition it references. Non-trivial = sheet with >= 1 "
